@@ -9,7 +9,7 @@
 #include <unordered_map>
 using namespace vf;
 
-static const lib::Registry* REG;
+static const lib::Registry* REG; static int SET = 0;   /* which dependency set is currently injected (alternates per case: a later injection replaces the wipe function too) */
 static constexpr size_t STKSZ = 256 * 1024; static uint8_t* STK; static ucontext_t MAINCTX, CTX; static std::function<void()>* G_FN;
 static void tramp() { (*G_FN)(); }
 static void on_stack(std::function<void()> fn) {
@@ -18,12 +18,14 @@ static void on_stack(std::function<void()> fn) {
 static void setup() {
     Case c; c.set("phase", "setup"); set_current(c); deps::inject(0); REG = &lib::Registry::get();
     STK = (uint8_t*)mmap(nullptr, STKSZ, PROT_READ | PROT_WRITE, MAP_PRIVATE | MAP_ANONYMOUS, -1, 0);
+    for (auto& le : REG->langs) lib::lib_words(le);   /* built once, while set 0 is injected */
+    g::WordClasses::get();
 }
 // every block the library hands to the injected free (seed release, and failure exits of load/decode) must have been
 // wiped through the injected function first: in "mark" mode its content is 0xEE throughout
 static size_t g_freed_seen = 0;
 static std::string freed_blocks_wiped(const char* call) {
-    deps::Kit& k = deps::kit(0);
+    deps::Kit& k = deps::kit(SET);
     for (; g_freed_seen < k.freed.size(); g_freed_seen++) for (uint8_t b : k.freed[g_freed_seen].content) if (b != 0xEE)
         return std::string("during ") + call + " a block reached the injected free without having been wiped by the injected wipe function (content " + vf::hex(k.freed[g_freed_seen].content).substr(0, 80) + "...)";
     return "";
@@ -89,7 +91,8 @@ static std::vector<unsigned> indices_of(const lib::LangEntry& le, const std::str
 
 // case: secret(19, high entropy) birthday ufeat lang coin pw(hex) mask(hex32) scenario
 static std::string oracle(const Case& c) {
-    deps::Kit& k = deps::kit(0); k.reset_all(); g_freed_seen = 0; G_ALL.clear(); Evidence& ev = W().ev; k.mz_mode = deps::MZ_MARK; polyseed_enable_features(7);
+    SET = (int)(c.u("set") & 1); deps::inject(SET); deps::kit(1 - SET).reset_all();
+    deps::Kit& k = deps::kit(SET); k.reset_all(); g_freed_seen = 0; G_ALL.clear(); Evidence& ev = W().ev; k.mz_mode = deps::MZ_MARK; polyseed_enable_features(7);
     const lib::LangEntry* le = REG->by_name(c.get("lang")); if (!le) return "";
     std::string sec = c.bytes("secret"); sec.resize(19, '\x5a'); std::string sec150 = sec; sec150[18] &= 0x3F; unsigned coin = (unsigned)c.u("coin") & 2047u, uf = (unsigned)c.u("ufeat") & 7u;
     std::string pw = c.bytes("pw"); pw = pw.substr(0, pw.find('\0')); std::string mask = c.bytes("mask"); mask.resize(32, '\x77');
@@ -179,6 +182,8 @@ static std::string oracle(const Case& c) {
         if (!((uint8_t*)mc.ptr <= (uint8_t*)p && (uint8_t*)mc.ptr + mc.len >= (uint8_t*)p + fr.size)) return "the wipe call immediately before free does not cover the whole seed block";
         ev.count("call:free");
     }
+    if (deps::kit(1 - SET).mz_calls) return "the wipe function of a dependency set that is no longer injected was called " + std::to_string(deps::kit(1 - SET).mz_calls) + " times (and the injected one " + std::to_string(k.mz_calls) + " times)";
+    ev.count(SET ? "dependency-set:B" : "dependency-set:A");
     { std::string sm = scan_static(G_ALL); if (!sm.empty()) return sm; ev.count("static-storage-scanned"); }
     ev.eval(); ev.nt(c); ev.count("lang:" + le->name_en); ev.sample(le->name_en, c);
     return "";
@@ -189,7 +194,7 @@ static void run() {
     rc_run("c16-wipe", a.n(4000, 80000), 100, [&]() {
         Case c; c.set("secret", hex(*rc::gen::noShrink(vf::bytes(19)))); c.set("birthday", (uint64_t)*g::birthday()); c.set("ufeat", *in_range<unsigned>(0, 8)); c.set("lang", REG->at(*g::lang_index()).name_en); c.set("coin", (uint64_t)*g::coin());
         std::string pw = *rc::gen::element<std::string>("", "correct horse battery staple", "contrase\xc3\xb1""a-segura-\xc3\xa9\xc3\xa1", "\xe3\x83\x91\xe3\x82\xb9\xe3\x83\xaf\xe3\x83\xbc\xe3\x83\x89""0123456789"); auto tail = *rc::gen::noShrink(vf::bytes(12)); for (auto b : tail) pw.push_back((char)('a' + b % 26));
-        c.set("pw", hex(pw)); c.set("mask", hex(*rc::gen::noShrink(vf::bytes(32)))); c.set("scenario", *in_range<unsigned>(0, 64));
+        c.set("pw", hex(pw)); c.set("mask", hex(*rc::gen::noShrink(vf::bytes(32)))); c.set("scenario", *in_range<unsigned>(0, 64)); c.set("set", *in_range<unsigned>(0, 2));
         set_current(c); std::string m = oracle(c); if (!m.empty()) VF_FAIL(c, m);
     });
 }
